@@ -75,6 +75,27 @@ def probe(d, scratch):
         if isinstance(e, (KeyboardInterrupt, SystemExit)):
             raise
         o = repo.outcome_of_exception(e)
+        if o['o'] == 'lib':
+            # the same request once more on the same Parser: translation is total on every call, not only on the first
+            # (it must be rejected again - never a stale or empty result, never a foreign exception)
+            try:
+                again = repo.with_timeout(30, ps.get_translation)
+                return 'badclass', f'rejected with {type(e).__name__}, but the same request repeated returned {type(again).__name__}'
+            except BaseException as e2:  # noqa
+                if isinstance(e2, (KeyboardInterrupt, SystemExit)):
+                    raise
+                o2 = repo.outcome_of_exception(e2)
+                if o2['o'] != 'lib':
+                    return o2['o'], 'repeated request: ' + o2.get('t', '') + ':' + str(e2)[:80]
+            try:
+                repo.with_timeout(30, ps.write_translation, py)
+                return 'badclass', f'rejected with {type(e).__name__}, but the same write request repeated succeeded'
+            except BaseException as e3:  # noqa
+                if isinstance(e3, (KeyboardInterrupt, SystemExit)):
+                    raise
+                o3 = repo.outcome_of_exception(e3)
+                if o3['o'] != 'lib':
+                    return o3['o'], 'repeated write request: ' + o3.get('t', '') + ':' + str(e3)[:80]
         return o['o'], o.get('t', '') + ':' + str(e)[:80]
     return check_ok_text(text, sheets, py)
 
